@@ -136,7 +136,11 @@ fn main() {
             }
             writeln!(m, "{}", code).unwrap();
             let root = &c.root;
-            if c.user_ctx {
+            if prop == "C03" {
+                // rustc is the judge: exact-type assertions computed from the documented mapping
+                writeln!(m, "{}", refpeg::shape::assertions(&c.grammar, &c.derives)).unwrap();
+                writeln!(m, "pub fn run(_input: &str, _mode: hrt::Mode) -> hrt::Real {{ hrt::Real::Panic(String::new()) }}").unwrap();
+            } else if c.user_ctx {
                 writeln!(m, "pub fn run(input: &str, mode: hrt::Mode) -> hrt::Real {{ hrt::run_parse_ctx::<{root}>(input, mode) }}").unwrap();
             } else {
                 writeln!(m, "pub fn run(input: &str, mode: hrt::Mode) -> hrt::Real {{ hrt::run_parse::<{root}>(input, mode) }}").unwrap();
